@@ -2,7 +2,7 @@
    history-level statements chk_C04 / chk_C05 for the faithful model (known findings).
    Datagrams are real mDNS response packets (built by tools/dnsgen.py, see the comment of each). *)
 From Coq Require Import List NArith Bool.
-From Mdns Require Import Res Bytes Rec Wire WireOut Txt Cache Browser C03Spec BrowserSpec.
+From Mdns Require Import Res Bytes Rec Wire WireOut Rfc1035 C02Spec Txt Cache Browser C03Spec BrowserSpec BrowserKnown.
 Import ListNotations.
 Open Scope N_scope.
 
@@ -23,6 +23,14 @@ Definition w_mixed_nohost : bytes := [0;0;132;0;0;0;0;1;0;0;0;2;5;95;104;116;116
 Definition w_addr_lower3 : bytes := [0;0;132;0;0;0;0;0;0;0;0;1;5;104;111;115;116;49;5;108;111;99;97;108;0;0;1;128;1;0;0;0;3;0;4;192;168;1;50] .
 
 Definition w_twonames_addr3 : bytes := [0;0;132;0;0;0;0;2;0;0;0;3;5;95;104;116;116;112;4;95;116;99;112;5;108;111;99;97;108;0;0;12;0;1;0;0;17;148;0;6;3;119;101;98;192;12;8;95;112;114;105;110;116;101;114;4;95;115;117;98;192;12;0;12;0;1;0;0;17;148;0;2;192;40;192;40;0;33;128;1;0;0;0;120;0;14;0;0;0;0;31;144;5;104;111;115;116;49;192;23;192;40;0;16;128;1;0;0;17;148;0;4;3;97;61;49;192;92;0;1;128;1;0;0;0;3;0;4;192;168;1;50] .
+
+Definition w_full_noflush : bytes := [0;0;132;0;0;0;0;1;0;0;0;3;5;95;104;116;116;112;4;95;116;99;112;5;108;111;99;97;108;0;0;12;0;1;0;0;17;148;0;6;3;119;101;98;192;12;192;40;0;33;0;1;0;0;0;120;0;14;0;0;0;0;31;144;5;104;111;115;116;49;192;23;192;40;0;16;128;1;0;0;17;148;0;4;3;97;61;49;192;64;0;1;128;1;0;0;0;120;0;4;192;168;1;50] .
+Definition w_srv_host2 : bytes := [0;0;132;0;0;0;0;0;0;0;0;1;3;119;101;98;5;95;104;116;116;112;4;95;116;99;112;5;108;111;99;97;108;0;0;33;0;1;0;0;0;120;0;14;0;0;0;0;35;130;5;104;111;115;116;50;192;27] .
+Definition w_short : bytes := [0;0;132;0;0;0;0;1;0;0;0;3;5;95;104;116;116;112;4;95;116;99;112;5;108;111;99;97;108;0;0;12;0;1;0;0;0;120;0;6;3;119;101;98;192;12;192;40;0;33;128;1;0;0;0;3;0;14;0;0;0;0;31;144;5;104;111;115;116;49;192;23;192;40;0;16;128;1;0;0;17;148;0;4;3;97;61;49;192;64;0;1;128;1;0;0;0;5;0;4;192;168;1;50] .
+Definition w_ptr_srv3 : bytes := [0;0;132;0;0;0;0;1;0;0;0;1;5;95;104;116;116;112;4;95;116;99;112;5;108;111;99;97;108;0;0;12;0;1;0;0;0;120;0;6;3;119;101;98;192;12;192;40;0;33;128;1;0;0;0;3;0;14;0;0;0;0;31;144;5;104;111;115;116;49;192;23] .
+Definition w_addr5 : bytes := [0;0;132;0;0;0;0;0;0;0;0;1;5;104;111;115;116;49;5;108;111;99;97;108;0;0;1;128;1;0;0;0;5;0;4;192;168;1;50] .
+Definition w_addr3 : bytes := [0;0;132;0;0;0;0;1;0;0;0;3;5;95;104;116;116;112;4;95;116;99;112;5;108;111;99;97;108;0;0;12;0;1;0;0;17;148;0;6;3;119;101;98;192;12;192;40;0;33;128;1;0;0;0;120;0;14;0;0;0;0;31;144;5;104;111;115;116;49;192;23;192;40;0;16;128;1;0;0;17;148;0;4;3;97;61;49;192;64;0;1;128;1;0;0;0;3;0;4;192;168;1;50] .
+Definition w_ptr_bye : bytes := [0;0;132;0;0;0;0;1;0;0;0;0;5;95;104;116;116;112;4;95;116;99;112;5;108;111;99;97;108;0;0;12;0;1;0;0;0;0;0;6;3;119;101;98;192;12] .
 
 Definition ex_ifs : iftab := [(2, (true, true)); (3, (true, false))].
 Definition T0 : N := 1000000.
@@ -169,3 +177,81 @@ Proof. exists ex_ifs, ref4_hist, (ex_wakes ref4_hist). destruct ref4_facts as (A
 Lemma chk_C05_refuted :
   exists ifs h wakes, wf_history h = true /\ chk_C05 ifs h wakes (map obs_of (run_history ifs h)) = false.
 Proof. exists ex_ifs, ref5_hist, (ex_wakes ref5_hist). destruct ref5_facts as (A & _ & B). auto. Qed.
+
+(* ---- round 4: one witness per known class, and the class predicates on them ---------------------- *)
+
+(* C05-ptr-variant-expiry: ref5_hist is in the class known_ptr_variant *)
+Lemma ptr_variant_witness :
+  known_ptr_variant (log_of_history ex_ifs ref5_hist) = true
+  /\ existsb is_alive_fail (viol_C05 ex_ifs ref5_hist (ex_wakes ref5_hist) (map obs_of (run_history ex_ifs ref5_hist))) = true.
+Proof. split; vm_compute; reflexivity. Qed.
+
+(* C05-second-srv-target (found in round 4): a second SRV record (no cache-flush bit) names a host
+   without addresses: ServiceRemoved although the first SRV and its address are live, and the
+   instance is never reported again *)
+Definition srvtgt_hist : list iter :=
+  [ mkIter T0 [] [CBrowse n_ty 1];
+    mkIter (T0 + 100) [mkDgram 2 true w_full_noflush] [];
+    mkIter (T0 + 2000) [mkDgram 2 true w_srv_host2] [];
+    mkIter (T0 + 2500) [] [] ].
+
+Lemma srv_targets_witness :
+  wf_history srvtgt_hist = true
+  /\ known_srv_targets (log_of_history ex_ifs srvtgt_hist) = true
+  /\ known_ptr_variant (log_of_history ex_ifs srvtgt_hist) = false
+  /\ existsb is_alive_fail (viol_C05 ex_ifs srvtgt_hist (ex_wakes srvtgt_hist) (map obs_of (run_history ex_ifs srvtgt_hist))) = true
+  /\ chk_C04 ex_ifs srvtgt_hist (ex_wakes srvtgt_hist) (map obs_of (run_history ex_ifs srvtgt_hist)) = false.
+Proof. repeat split; vm_compute; reflexivity. Qed.
+
+(* C05-expiry-hidden-by-expiring-ptr: PTR goodbye at +2600, the only address (TTL 3 s) runs out
+   at +3100, ServiceRemoved comes at +3600 only *)
+Definition ptrlast_hist : list iter :=
+  [ mkIter T0 [] [CBrowse n_ty 1];
+    mkIter (T0 + 100) [mkDgram 2 true w_addr3] [];
+    mkIter (T0 + 2600) [mkDgram 2 true w_ptr_bye] [];
+    mkIter (T0 + 3100) [] [];
+    mkIter (T0 + 3600) [] [] ].
+
+Definition is_dead_last_second (f : fail) : bool := match f with F05_dead _ _ _ _ true _ => true | _ => false end.
+
+Lemma ptr_last_second_witness :
+  wf_history ptrlast_hist = true
+  /\ safe_class ex_ifs ptrlast_hist = true
+  /\ map (fun o => existsb is_removed_evt o) (run_history ex_ifs ptrlast_hist) = [false; false; false; false; true]
+  /\ existsb is_dead_last_second (viol_C05 ex_ifs ptrlast_hist (ex_wakes ptrlast_hist) (map obs_of (run_history ex_ifs ptrlast_hist))) = true.
+Proof. repeat split; vm_compute; reflexivity. Qed.
+
+(* C04-last-second-refresh-not-new: SRV (TTL 3) expires: removed; at +4200 packet 1 = PTR + SRV
+   (new, but the address has < 1 s left), packet 2 = the address again (only refreshed): complete,
+   not reported *)
+Definition lastsec_hist : list iter :=
+  [ mkIter T0 [] [CBrowse n_ty 1];
+    mkIter (T0 + 100) [mkDgram 2 true w_short] [];
+    mkIter (T0 + 3100) [] [];
+    mkIter (T0 + 4200) [mkDgram 2 true w_ptr_srv3; mkDgram 2 true w_addr5] [];
+    mkIter (T0 + 4700) [] [] ].
+
+Definition is_refresh_only (f : fail) : bool := match f with F04_complete _ _ _ _ false => true | _ => false end.
+
+Lemma last_second_refresh_witness :
+  wf_history lastsec_hist = true
+  /\ safe_class ex_ifs lastsec_hist = true
+  /\ existsb is_refresh_only (viol_C04 ex_ifs lastsec_hist (ex_wakes lastsec_hist) (map obs_of (run_history ex_ifs lastsec_hist))) = true.
+Proof. repeat split; vm_compute; reflexivity. Qed.
+
+(* C04-D20: the PTR target of ref4_hist has a label that does not survive the dotted presentation *)
+Definition known_dotted (h : list iter) : bool :=
+  existsb (fun t => negb (labels_beq (name_labels (C02Spec.dotted t)) t))
+          (flat_map (fun it => flat_map (fun d => ptr_targets_of (d_data d)) (i_dgrams it)) h).
+
+Lemma dotted_witness :
+  known_dotted ref4_hist = true /\ known_dotted ex_hist = false
+  /\ chk_C04 ex_ifs ref4_hist (ex_wakes ref4_hist) (map obs_of (run_history ex_ifs ref4_hist)) = false.
+Proof. repeat split; vm_compute; reflexivity. Qed.
+
+(* non-vacuity of the safety theorem: ex_hist is in the safe class, is well-formed, and its
+   trace contains a ServiceRemoved (goodbye) *)
+Lemma safe_example :
+  wf_history ex_hist = true /\ safe_class ex_ifs ex_hist = true
+  /\ existsb (existsb is_removed_evt) (run_history ex_ifs ex_hist) = true.
+Proof. repeat split; vm_compute; reflexivity. Qed.
